@@ -301,6 +301,19 @@ Section Ops.
         rewrite el_removelast by lia. apply HH; auto; try lia. unfold handles in HP. fold l in HP. rewrite <- Hn in HP. exact HP.
   Qed.
 
+  Corollary delete_by_handle h x o pos : heap_inv h -> small (length (elems h)) ->
+    handles pos h -> In x (elems h) ->
+    exists p h' ns o' ev,
+      pos x = Some p /\ ptrheap_delete std_tc std_hc cmp true h p o = Ok (h', ns, o', ev) /\
+      heap_inv h' /\ Permutation (x :: elems h') (elems h) /\ handles (apply_notes pos ns) h'.
+  Proof.
+    intros HI Hs HP Hin. destruct (In_el _ _ Hin) as (p & Hp & Ex).
+    destruct (delete_spec true h p o HI Hs) as (h' & ns & o' & ev & E & HI' & HPm & HH & _).
+    { destruct HI as [Hn _]. lia. }
+    exists p, h', ns, o', ev. rewrite Ex in HPm. split; [rewrite <- Ex; apply HP; auto|].
+    repeat (split; auto).
+  Qed.
+
   (* ---- decrease / increase / increasemin ---- *)
   Theorem decrease_spec setrc h rc : nelems h = length (elems h) -> rc < nelems h ->
     aup le (nelems h) (elems h) rc ->
